@@ -556,6 +556,48 @@ func genModule(r *base.Rand, nPairs int, startFeature int) *c05module {
 			fmt.Fprintf(tw, "func (r %s%s) %s %s\n\n", star, recvT, tm.sig("impl", tq), body(tm))
 		}
 	}
+	// twins: the same written qualifier ("ii" / "aa") names m5/ifc in one file and m5/yy in its sibling, and both packages
+	// declare an interface of the pair's name; the sibling's copy of the type carries the same annotation text.
+	var twins []*c05pair
+	for _, p := range m.pairs {
+		if p.feature != "plain" || p.ifacePkg != "ifc" || m.special[p.idx] != "" || p.file == 0 || p.tkind != "struct" || p.viaEmbed != "" || p.embeds != "" {
+			continue
+		}
+		extra := (p.idx/3)%2 == 0 // every other twin interface asks for one more method
+		fmt.Fprintf(&alt, "type %s interface {\n", p.ifaceName)
+		for _, im := range p.imethods {
+			fmt.Fprintf(&alt, "\t%s\n", im.sig("alt", map[string]string{"ifc": "ifc"}))
+		}
+		if extra {
+			fmt.Fprintf(&alt, "\tTwinExtra%d()\n", p.idx)
+		}
+		alt.WriteString("}\n\n")
+		tw := *p
+		tw.tname = p.tname + "tw"
+		tw.feature = "same-qualifier-other-package-in-sibling-file"
+		tw.file = 3 - p.file
+		tw.ifacePkg = "alt"
+		tq := m.fileQual[tw.file]
+		w := implFiles[tw.file]
+		amp := ""
+		if p.ptrContract {
+			amp = "&"
+		}
+		fmt.Fprintf(w, "// %s is generated (feature %s).\n// @implements %s%s.%s\ntype %s struct{}\n\n", tw.tname, tw.feature, amp, p.qualifier, p.annName, tw.tname)
+		for i, tm := range p.tmethods {
+			star := ""
+			if p.recvPtr[i] {
+				star = "*"
+			}
+			b := "{}"
+			if len(tm.res) > 0 {
+				b = "{ panic(0) }"
+			}
+			fmt.Fprintf(w, "func (r %s%s) %s %s\n\n", star, tw.tname, tm.sig("impl", tq), b)
+		}
+		twins = append(twins, &tw)
+	}
+	m.pairs = append(m.pairs, twins...)
 	m.files["ifc/ifc.go"] = ifc.String()
 	m.files["v2/ifc/ifc.go"] = "package ifc\n\ntype Item struct{ X bool }\n"
 	m.files["yy/alt.go"] = alt.String()
@@ -728,7 +770,7 @@ func checkC05(replay string) {
 	r := base.NewRun("C05")
 	r.Rule = "generated (type, interface) pairs over a signature grammar (basic incl. byte/uint8, rune/int32, any/interface{}; named local/imported; pointers of depth 0-3; slices, arrays, maps, funcs, chans with direction; variadics; aliases; value/pointer receivers; methods promoted through embedded E, *E, embedded interface; interface embedding; T itself an interface or non-struct; interface in same package / imported / imported under alias / from a package whose name differs from its directory; & or not; unimported, missing and non-interface targets), each pair an exact copy or a single-edit mutation; the real binary's IMPL01/02/03 (+ listed methods) must equal the verdict of go/types on the same module; distinct = distinct (feature, contract kind, expected code) classes judged"
 	r.Assume = []string{"go/types (method sets, types.Identical) is the reference for 'Go's own type checker'", "generic interfaces / types are outside the fragment"}
-	nMod := r.Pick(40, 1200)
+	nMod := r.Pick(160, 1600)
 	perMod := 16
 	var mu sync.Mutex
 	classes := map[string]int{}
